@@ -12,6 +12,17 @@ def RT (O : Oracles) (opts : DeserOpts) (f : FieldDecl) (v : PyVal) : Prop :=
   ∃ j, ser O f v = .ok j ∧ isJson j = true ∧ j.isNone = v.isNone
     ∧ deser O opts false f j = .ok v ∧ validate O f v = .ok v
 
+/-- the same through the constructor: the document deserializes to SOME value `w` (what the deserializer
+    hands to the constructor) which the field's validation turns into exactly the stored value -/
+def RT2 (O : Oracles) (opts : DeserOpts) (f : FieldDecl) (v : PyVal) : Prop :=
+  ∃ j w, ser O f v = .ok j ∧ isJson j = true ∧ j.isNone = v.isNone
+    ∧ deser O opts false f j = .ok w ∧ w.isNone = v.isNone ∧ validate O f w = .ok v
+
+theorem rt2_of_rt (O : Oracles) (opts : DeserOpts) (f : FieldDecl) (v : PyVal) (h : RT O opts f v) :
+    RT2 O opts f v := by
+  rcases h with ⟨j, h1, h2, h3, h4, h5⟩
+  exact ⟨j, v, h1, h2, h3, h4, rfl, h5⟩
+
 theorem geMin_noSign (o : NumOpts) (q : Q) (h : numOk o q = true) : numOk (noSign o) q = true := by
   unfold numOk at h ⊢
   simp only [and_true_iff] at h
@@ -156,8 +167,63 @@ theorem rt_filter_names_nil (P : String × PyVal → Bool) (names : List String)
   have := h a ha
   simp [this]
 
+theorem rt_kwOfDict_pairs : ∀ (args : List (String × PyVal)),
+    kwOfDict (args.map fun a => (PyVal.str a.1, a.2)) = some args
+  | [] => rfl
+  | (k, v) :: rest => by
+    have := rt_kwOfDict_pairs rest
+    simp only [List.map_cons, kwOfDict, this, Option.map_some]
+
+theorem rt_lookup_isSome_names {α β} (r : String) : ∀ (kw : List (String × α)) (kw' : List (String × β)),
+    kw.map (·.1) = kw'.map (·.1) → (lookup r kw).isSome = (lookup r kw').isSome
+  | [], [], _ => rfl
+  | [], _ :: _, h => by simp at h
+  | _ :: _, [], h => by simp at h
+  | (k, v) :: rest, (k', v') :: rest', h => by
+    simp only [List.map_cons, List.cons.injEq] at h
+    obtain ⟨hk, hr⟩ := h
+    subst hk
+    simp only [lookup]
+    by_cases hrk : (r == k) = true
+    · simp [hrk]
+    · simp only [hrk, Bool.false_eq_true, if_false]
+      exact rt_lookup_isSome_names r rest rest' hr
+
+/-- what the constructor does with the deserialized keyword arguments `args` of a class whose
+    attributes round-trip field by field -/
+theorem rt_construct (O : Oracles) (c : ClassOpts) (fields : List (String × FieldDecl))
+    (defaults attrs args : List (String × PyVal))
+    (hreq : c.required.all (fun r => (lookup r attrs).isSome) = true)
+    (hnames : ∀ a ∈ attrs, a.1 ∈ fields.map (·.1))
+    (ga : args.map (·.1) = attrs.map (·.1))
+    (g5 : validateFields O c defaults args fields = .ok attrs) :
+    vConstruct c (fields.map (·.1)) args (validateFields O c defaults args fields) = .ok (.inst c.name attrs) := by
+  have hargnames : ∀ a ∈ args, a.1 ∈ fields.map (·.1) := by
+    intro a ha
+    have : a.1 ∈ args.map (·.1) := List.mem_map_of_mem ha
+    rw [ga] at this
+    rcases List.mem_map.mp this with ⟨b, hb, hab⟩
+    rw [← hab]; exact hnames b hb
+  have hex2 : extrasOf c (fields.map (·.1)) args = [] := by
+    unfold extrasOf
+    exact rt_filter_names_nil (fun a => !(a.2.isNone && c.ignoreNone)) (fields.map (·.1)) args hargnames
+  have hbind : bindOk c (fields.map (·.1)) args = true := by
+    unfold bindOk
+    simp only [and_true_iff, Bool.not_eq_true', List.any_eq_false, Bool.and_eq_false_iff]
+    constructor
+    · intro r hr
+      have := (List.all_eq_true.mp hreq) r hr
+      rw [← rt_lookup_isSome_names r args attrs ga] at this
+      cases h : lookup r args <;> simp [h] at this ⊢
+    · by_cases ha : c.addl = true
+      · left; simp [ha]
+      · right
+        intro a ha'
+        simp [hargnames a ha']
+  simp [vConstruct, hbind, g5, hex2]
+
 theorem rt_struct (O : Oracles) (opts : DeserOpts) (c : ClassOpts) (fields : List (String × FieldDecl))
-    (defaults attrs kw : List (String × PyVal))
+    (defaults attrs kw args : List (String × PyVal))
     (hinl : c.inline = false) (hacc : c.accepts.contains c.name = true)
     (hreq : c.required.all (fun r => (lookup r attrs).isSome) = true)
     (hnames : ∀ a ∈ attrs, a.1 ∈ fields.map (·.1))
@@ -166,8 +232,9 @@ theorem rt_struct (O : Oracles) (opts : DeserOpts) (c : ClassOpts) (fields : Lis
             bindE (serField O fields a.1 a.2) fun j => .ok (PyVal.str a.1, j)) attrs = .ok (kw.map rt_toPair))
     (g2 : isJsonPairs (kw.map rt_toPair) = true)
     (g3 : kw.map (·.1) = attrs.map (·.1))
-    (g4 : deserFields O opts c kw fields false = .ok attrs)
-    (g5 : validateFields O c defaults attrs fields = .ok attrs) :
+    (ga : args.map (·.1) = attrs.map (·.1))
+    (g4 : deserFields O opts c kw fields false = .ok args)
+    (g5 : validateFields O c defaults args fields = .ok attrs) :
     RT O opts (.struct c fields defaults) (.inst c.name attrs) := by
   have hfil : attrs.filter (fun a => !a.2.isNone) = attrs :=
     List.filter_eq_self.mpr (fun a ha => by simp [hnn a ha])
@@ -182,27 +249,50 @@ theorem rt_struct (O : Oracles) (opts : DeserOpts) (c : ClassOpts) (fields : Lis
     have := rt_filter_names_nil (fun _ => opts.keepUndefined && (c.addl || !opts.ignoreInvalidAddl))
       (fields.map (·.1)) kw hkwnames
     simpa [Bool.and_assoc] using this
-  have hex2 : extrasOf c (fields.map (·.1)) attrs = [] := by
-    unfold extrasOf
-    exact rt_filter_names_nil (fun a => !(a.2.isNone && c.ignoreNone)) (fields.map (·.1)) attrs hnames
-  have hbind : bindOk c (fields.map (·.1)) attrs = true := by
-    unfold bindOk
-    simp only [and_true_iff, Bool.not_eq_true', List.any_eq_false, Bool.and_eq_false_iff]
-    constructor
-    · intro r hr
-      have := (List.all_eq_true.mp hreq) r hr
-      cases h : lookup r attrs <;> simp [h] at this ⊢
-    · by_cases ha : c.addl = true
-      · left; simp [ha]
-      · right
-        intro a ha'
-        simp [hnames a ha']
+  have hcon := rt_construct O c fields defaults attrs args hreq hnames ga g5
   refine ⟨.dict (kw.map rt_toPair), ?_, ?_, rfl, ?_, ?_⟩
   · simp [ser, sInst, hfil, g1]
   · simp [isJson, g2]
-  · simp [deser, PyVal.isNone, hinl, dClassRef, rt_kwOfDict_map, g4, hex, vConstruct, hbind, g5, hex2]
+  · simp [deser, PyVal.isNone, hinl, dClassRef, rt_kwOfDict_map, g4, hex, hcon]
   · have hacc' : c.name ∈ c.accepts := by simpa using hacc
     simp [validate, hinl, vClassRef, hacc']
+
+/-- a StructureReference attribute: the document is the object of the inline class's populated fields;
+    the deserializer validates the keyword arguments it builds and hands them on as a dict; the
+    constructor turns that dict into the instance of the inline class -/
+theorem rt2_inline (O : Oracles) (opts : DeserOpts) (c : ClassOpts) (fields : List (String × FieldDecl))
+    (defaults attrs kw args : List (String × PyVal))
+    (hinl : c.inline = true)
+    (hreq : c.required.all (fun r => (lookup r attrs).isSome) = true)
+    (hnames : ∀ a ∈ attrs, a.1 ∈ fields.map (·.1))
+    (hnn : ∀ a ∈ attrs, a.2.isNone = false)
+    (g1 : mapE (fun (a : String × PyVal) =>
+            bindE (serField O fields a.1 a.2) fun j => .ok (PyVal.str a.1, j)) attrs = .ok (kw.map rt_toPair))
+    (g2 : isJsonPairs (kw.map rt_toPair) = true)
+    (g3 : kw.map (·.1) = attrs.map (·.1))
+    (ga : args.map (·.1) = attrs.map (·.1))
+    (g4 : deserFields O opts c kw fields false = .ok args)
+    (g5 : validateFields O c defaults args fields = .ok attrs) :
+    RT2 O opts (.struct c fields defaults) (.inst c.name attrs) := by
+  have hfil : attrs.filter (fun a => !a.2.isNone) = attrs :=
+    List.filter_eq_self.mpr (fun a ha => by simp [hnn a ha])
+  have hkwnames : ∀ a ∈ kw, a.1 ∈ fields.map (·.1) := by
+    intro a ha
+    have : a.1 ∈ kw.map (·.1) := List.mem_map_of_mem ha
+    rw [g3] at this
+    rcases List.mem_map.mp this with ⟨b, hb, hab⟩
+    rw [← hab]; exact hnames b hb
+  have hex : deserExtras opts c (fields.map (·.1)) kw = [] := by
+    unfold deserExtras
+    have := rt_filter_names_nil (fun _ => opts.keepUndefined && (c.addl || !opts.ignoreInvalidAddl))
+      (fields.map (·.1)) kw hkwnames
+    simpa [Bool.and_assoc] using this
+  have hcon := rt_construct O c fields defaults attrs args hreq hnames ga g5
+  refine ⟨.dict (kw.map rt_toPair), .dict (args.map fun a => (PyVal.str a.1, a.2)), ?_, ?_, rfl, ?_, rfl, ?_⟩
+  · simp [ser, sInst, hfil, g1]
+  · simp [isJson, g2]
+  · simp [deser, PyVal.isNone, hinl, dInline, rt_kwOfDict_map, g4, hex, hcon]
+  · simp [validate, hinl, vInline, rt_kwOfDict_pairs, hcon]
 
 theorem deser_nonNone (O : Oracles) (opts : DeserOpts) (ign : Bool) (f : FieldDecl) (v : PyVal)
     (h : v.isNone = false) : deser O opts ign f v = deser O opts false f v := by
@@ -279,7 +369,7 @@ theorem canonAttrs_nonNone (O : Oracles) (c : ClassOpts) (defaults : List (Strin
     by_cases hm : (m == n) = true
     · simp only [hm, if_true, and_true_iff] at h
       rcases List.mem_cons.mp ha with rfl | ha'
-      · simpa using h.1.1.1
+      · simpa using h.1.1
       · exact canonAttrs_nonNone O c defaults rest as h.2 a ha'
     · simp only [hm, Bool.false_eq_true, if_false, and_true_iff] at h
       exact canonAttrs_nonNone O c defaults rest ((m, v) :: as) h.2 a ha
@@ -535,6 +625,130 @@ theorem strKeysDistinct_keys : ∀ (r kvs : List (PyVal × PyVal)), r.map (·.1)
     rw [hr] at h
     exact congrArg (fun b => (!b && strKeysDistinct kvs)) (h.trans h'.symm)
 
+/-! #### Map with Integer keys -/
+
+theorem c05_pyEq_int_int (a b : Int) : pyEq (.int a) (.int b) = (a == b) := by
+  by_cases h : a = b <;> simp [pyEq, PyVal.asNum, Q.eq, Q.ofInt, h]
+
+def keyFreshI (i : Int) (acc : List (PyVal × PyVal)) : Bool :=
+  !(acc.any fun kv => match kv.1 with | .int j => i == j | _ => true)
+
+theorem dictSet_freshI (i : Int) (v : PyVal) : ∀ acc : List (PyVal × PyVal),
+    keyFreshI i acc = true → dictSet (.int i) v acc = acc ++ [(.int i, v)]
+  | [], _ => rfl
+  | (k', v') :: rest, h => by
+    simp only [keyFreshI, List.any_cons, Bool.not_or, and_true_iff] at h
+    have hne : pyEq (.int i) k' = false := by
+      cases k' <;> simp at h
+      rename_i j
+      rw [c05_pyEq_int_int]; simpa using h.1
+    simp only [dictSet, hne, Bool.false_eq_true, if_false, List.cons_append]
+    congr 1
+    exact dictSet_freshI i v rest (by simp only [keyFreshI]; exact h.2)
+
+theorem keyFreshI_append (i : Int) (acc : List (PyVal × PyVal)) (j : Int) (v : PyVal)
+    (h1 : keyFreshI i acc = true) (h2 : (i == j) = false) : keyFreshI i (acc ++ [(.int j, v)]) = true := by
+  simp only [keyFreshI, List.any_append, Bool.not_or, and_true_iff] at h1 ⊢
+  exact ⟨h1, by simp [h2]⟩
+
+theorem foldl_dictSet_distinctI : ∀ (kvs acc : List (PyVal × PyVal)),
+    intKeysDistinct kvs = true →
+    (∀ kv ∈ kvs, ∀ i, kv.1 = .int i → keyFreshI i acc = true) →
+    kvs.foldl (fun a kv => dictSet kv.1 kv.2 a) acc = acc ++ kvs
+  | [], acc, _, _ => by simp
+  | (key, v) :: rest, acc, hd, hf => by
+    cases key with
+    | int i =>
+      simp only [intKeysDistinct, and_true_iff] at hd
+      have hk := hf (.int i, v) (by simp) i rfl
+      simp only [List.foldl_cons, dictSet_freshI i v acc hk]
+      have hrest : ∀ kv ∈ rest, ∀ i2, kv.1 = .int i2 → keyFreshI i2 (acc ++ [(.int i, v)]) = true := by
+        intro kv hkv i2 hk2
+        apply keyFreshI_append i2 acc i v (hf kv (by simp [hkv]) i2 hk2)
+        have h1 := hd.1
+        simp only [Bool.not_eq_true', List.any_eq_false] at h1
+        have := h1 kv hkv
+        rw [hk2] at this
+        simp only [Bool.not_eq_true] at this
+        cases hkk : (i2 == i)
+        · rfl
+        · have e : i2 = i := by simpa using hkk
+          subst e; simp at this
+      have ih := foldl_dictSet_distinctI rest (acc ++ [(.int i, v)]) hd.2 hrest
+      rw [ih]; simp
+    | _ => simp [intKeysDistinct] at hd
+
+theorem dictOfPairs_distinctI (kvs : List (PyVal × PyVal)) (h : intKeysDistinct kvs = true) :
+    dictOfPairs kvs = kvs := by
+  unfold dictOfPairs
+  have := foldl_dictSet_distinctI kvs [] h (fun _ _ _ _ => rfl)
+  simpa using this
+
+theorem intKeys_hashable : ∀ (kvs : List (PyVal × PyVal)), intKeysDistinct kvs = true →
+    kvs.any (fun kv => unhashable kv.1) = false
+  | [], _ => rfl
+  | (key, v) :: rest, h => by
+    cases key with
+    | int i =>
+      simp only [intKeysDistinct, and_true_iff] at h
+      simp [unhashable, intKeys_hashable rest h.2]
+    | _ => simp [intKeysDistinct] at h
+
+theorem intKeysDistinct_keys : ∀ (r kvs : List (PyVal × PyVal)), r.map (·.1) = kvs.map (·.1) →
+    intKeysDistinct r = intKeysDistinct kvs
+  | [], [], _ => rfl
+  | [], _ :: _, h => by simp at h
+  | _ :: _, [], h => by simp at h
+  | (k, v) :: r, (k', v') :: kvs, h => by
+    simp only [List.map_cons, List.cons.injEq] at h
+    obtain ⟨hk, hr⟩ := h
+    subst hk
+    have ih := intKeysDistinct_keys r kvs hr
+    cases k <;> simp only [intKeysDistinct, ih]
+    rename_i s
+    have h := any_fst_map (fun key => match key with | .int k' => s == k' | _ => true) r
+    have h' := any_fst_map (fun key => match key with | .int k' => s == k' | _ => true) kvs
+    rw [hr] at h
+    exact congrArg (fun b => (!b && intKeysDistinct kvs)) (h.trans h'.symm)
+
+theorem c05_intKeys_int : ∀ (kvs : List (PyVal × PyVal)), intKeysDistinct kvs = true →
+    ∀ kv ∈ kvs, ∃ i, kv.1 = .int i
+  | [], _, kv, hkv => by simp at hkv
+  | (key, v) :: rest, h, kv, hkv => by
+    cases key <;> simp [intKeysDistinct] at h
+    rename_i i
+    rcases List.mem_cons.mp hkv with rfl | hr
+    · exact ⟨i, rfl⟩
+    · exact c05_intKeys_int rest h.2 kv hr
+
+/-- entry-wise round trip of a Map with Integer keys -/
+theorem RT_pairsI (O : Oracles) (opts : DeserOpts) (o : NumOpts) (vf : FieldDecl) :
+    ∀ kvs : List (PyVal × PyVal),
+      (∀ kv ∈ kvs, (∃ i, kv.1 = .int i) ∧ aInteger o kv.1 = true ∧ RT O opts vf kv.2) →
+      ∃ r, mapE (fun (kv : PyVal × PyVal) =>
+              bindE (ser O (.integer o) kv.1) fun k' => bindE (ser O vf kv.2) fun v' => .ok (k', v')) kvs = .ok r
+        ∧ isJsonPairs r = true ∧ r.map (·.1) = kvs.map (·.1)
+        ∧ mapE (fun (kv : PyVal × PyVal) =>
+              bindE (deser O opts false vf kv.2) fun v' =>
+              bindE (deser O opts false (.integer o) kv.1) fun k' => .ok (k', v')) r = .ok kvs
+        ∧ mapE (fun (kv : PyVal × PyVal) =>
+              bindE (validate O (.integer o) kv.1) fun k' =>
+              bindE (validate O vf kv.2) fun v' => .ok (k', v')) kvs = .ok kvs
+  | [], _ => ⟨[], rfl, rfl, rfl, rfl, rfl⟩
+  | (key, v) :: rest, h => by
+    rcases h (key, v) (by simp) with ⟨⟨i, hk⟩, hs, j, h1, h2, _, h4, h5⟩
+    simp only at hk; subst hk
+    rcases rt_integer O opts o (.int i) hs with ⟨jk, k1, _, _, k4, k5⟩
+    have hjk : jk = .int i := by simp [ser, sScalar] at k1; exact k1.symm
+    subst hjk
+    rcases RT_pairsI O opts o vf rest (fun kv hkv => h kv (by simp [hkv])) with ⟨r, g1, g2, g3, g4, g5⟩
+    refine ⟨(.int i, j) :: r, ?_, ?_, ?_, ?_, ?_⟩
+    · simp [mapE, k1, h1, g1]
+    · simp [isJsonPairs, isJsonKey, h2, g2]
+    · simp [g3]
+    · simp [mapE, h4, k4, g4]
+    · simp [mapE, k5, h5, g5]
+
 /-- entry-wise round trip of a Map with String keys -/
 theorem RT_pairs (O : Oracles) (opts : DeserOpts) (lo hi : Option Nat) (pat : Option String) (vf : FieldDecl) :
     ∀ kvs : List (PyVal × PyVal),
@@ -670,41 +884,67 @@ theorem round_trip (O : Oracles) (opts : DeserOpts) : ∀ (f : FieldDecl) (v : P
     | _ => simp at hv
   | .mapAny _, _, _, hf => by simp [inFrag] at hf
   | .mapOf kf vf sz, v, hc, hf => by
-    simp only [inFrag, and_true_iff] at hf
-    obtain ⟨hkf, hv⟩ := hf
-    cases kf <;> simp [isStringDecl] at hkf
-    rename_i lo hi pat
+    simp only [inFrag] at hf
     cases v with
     | dict kvs =>
-      simp only [and_true_iff] at hv
-      obtain ⟨hdist, hall⟩ := hv
+      simp only [and_true_iff] at hf
+      obtain ⟨hkeys, hall⟩ := hf
       simp only [conforms, cMap, and_true_iff] at hc
-      have hkeys : ∀ kv ∈ kvs, ∃ k, kv.1 = .str k := by
-        intro kv hkv
-        have := (List.all_eq_true.mp hc.2) kv hkv
-        simp only [and_true_iff, conforms, aString] at this
-        cases hk : kv.1 <;> simp [hk] at this
-        exact ⟨_, rfl⟩
-      have hpt : ∀ kv ∈ kvs, (∃ k, kv.1 = .str k) ∧ aString O lo hi pat kv.1 = true
-          ∧ RT O { opts with keepUndefined := true } vf kv.2 := by
-        intro kv hkv
-        have hck := (List.all_eq_true.mp hc.2) kv hkv
-        simp only [and_true_iff, conforms] at hck
-        exact ⟨hkeys kv hkv, hck.1,
-          round_trip O { opts with keepUndefined := true } vf kv.2 hck.2 ((List.all_eq_true.mp hall) kv hkv)⟩
-      rcases RT_pairs O { opts with keepUndefined := true } lo hi pat vf kvs hpt with ⟨r, g1, g2, g3, g4, g5⟩
-      have hrd : strKeysDistinct r = true := by rw [strKeysDistinct_keys r kvs g3]; exact hdist
-      refine ⟨.dict r, ?_, by simp [isJson, g2], rfl, ?_, ?_⟩
-      · simp only [ser] at g1
-        simp only [ser, sMap, g1]
-        simp [bindE, strKeys_hashable r hrd, dictOfPairs_distinct r hrd]
-      · simp only [deser] at g4
-        simp only [deser, dMap, g4]
-        simp [bindE, PyVal.isNone, strKeys_hashable kvs hdist, dictOfPairs_distinct kvs hdist]
-      · simp only [validate] at g5
-        simp only [validate, vMap, g5]
-        simp [bindE, dictOfPairs_distinct kvs hdist, hc.1]
-    | _ => simp at hv
+      rcases (Bool.or_eq_true _ _).mp hkeys with hS | hI
+      · -- String keys
+        simp only [and_true_iff] at hS
+        obtain ⟨hkf, hdist⟩ := hS
+        cases kf <;> simp [isStringDecl] at hkf
+        rename_i lo hi pat
+        have hkeysS : ∀ kv ∈ kvs, ∃ k, kv.1 = .str k := by
+          intro kv hkv
+          have := (List.all_eq_true.mp hc.2) kv hkv
+          simp only [and_true_iff, conforms, aString] at this
+          cases hk : kv.1 <;> simp [hk] at this
+          exact ⟨_, rfl⟩
+        have hpt : ∀ kv ∈ kvs, (∃ k, kv.1 = .str k) ∧ aString O lo hi pat kv.1 = true
+            ∧ RT O opts vf kv.2 := by
+          intro kv hkv
+          have hck := (List.all_eq_true.mp hc.2) kv hkv
+          simp only [and_true_iff, conforms] at hck
+          exact ⟨hkeysS kv hkv, hck.1,
+            round_trip O opts vf kv.2 hck.2 ((List.all_eq_true.mp hall) kv hkv)⟩
+        rcases RT_pairs O opts lo hi pat vf kvs hpt with ⟨r, g1, g2, g3, g4, g5⟩
+        have hrd : strKeysDistinct r = true := by rw [strKeysDistinct_keys r kvs g3]; exact hdist
+        refine ⟨.dict r, ?_, by simp [isJson, g2], rfl, ?_, ?_⟩
+        · simp only [ser] at g1
+          simp only [ser, sMap, g1]
+          simp [bindE, strKeys_hashable r hrd, dictOfPairs_distinct r hrd]
+        · simp only [deser] at g4
+          simp only [deser, dMap, g4]
+          simp [bindE, PyVal.isNone, strKeys_hashable kvs hdist, dictOfPairs_distinct kvs hdist]
+        · simp only [validate] at g5
+          simp only [validate, vMap, g5]
+          simp [bindE, dictOfPairs_distinct kvs hdist, hc.1]
+      · -- Integer keys
+        simp only [and_true_iff] at hI
+        obtain ⟨hkf, hdist⟩ := hI
+        cases kf <;> simp [isIntDecl] at hkf
+        rename_i o
+        have hpt : ∀ kv ∈ kvs, (∃ i, kv.1 = .int i) ∧ aInteger o kv.1 = true ∧ RT O opts vf kv.2 := by
+          intro kv hkv
+          have hck := (List.all_eq_true.mp hc.2) kv hkv
+          simp only [and_true_iff, conforms] at hck
+          exact ⟨c05_intKeys_int kvs hdist kv hkv, hck.1,
+            round_trip O opts vf kv.2 hck.2 ((List.all_eq_true.mp hall) kv hkv)⟩
+        rcases RT_pairsI O opts o vf kvs hpt with ⟨r, g1, g2, g3, g4, g5⟩
+        have hrd : intKeysDistinct r = true := by rw [intKeysDistinct_keys r kvs g3]; exact hdist
+        refine ⟨.dict r, ?_, by simp [isJson, g2], rfl, ?_, ?_⟩
+        · simp only [ser] at g1
+          simp only [ser, sMap, g1]
+          simp [bindE, intKeys_hashable r hrd, dictOfPairs_distinctI r hrd]
+        · simp only [deser] at g4
+          simp only [deser, dMap, g4]
+          simp [bindE, PyVal.isNone, intKeys_hashable kvs hdist, dictOfPairs_distinctI kvs hdist]
+        · simp only [validate] at g5
+          simp only [validate, vMap, g5]
+          simp [bindE, dictOfPairs_distinctI kvs hdist, hc.1]
+    | _ => simp at hf
   | .struct c fields defaults, v, _, hf => by
     simp only [inFrag, and_true_iff] at hf
     obtain ⟨⟨⟨hinl, hacc⟩, hnd⟩, hv⟩ := hf
@@ -715,10 +955,10 @@ theorem round_trip (O : Oracles) (opts : DeserOpts) : ∀ (f : FieldDecl) (v : P
       have hn' : n = c.name := by simpa using hn
       subst hn'
       have hnd' : (fields.map (·.1)).Nodup := by simpa using hnd
-      rcases rt_fields O opts c defaults fields attrs hnd' hcan with ⟨kw, g1, g2, g3, g4, g5⟩
-      exact rt_struct O opts c fields defaults attrs kw (by simpa using hinl) hacc hreq
+      rcases rt_fields O opts c defaults fields attrs hnd' hcan with ⟨kw, args, g1, g2, g3, ga, g4, g5⟩
+      exact rt_struct O opts c fields defaults attrs kw args (by simpa using hinl) hacc hreq
         (canonAttrs_names O c defaults fields attrs hcan)
-        (canonAttrs_nonNone O c defaults fields attrs hcan) g1 g2 g3 g4 g5
+        (canonAttrs_nonNone O c defaults fields attrs hcan) g1 g2 g3 ga g4 g5
     | _ => simp at hv
   | .anyOf fs, v, _, hf => by
     simp only [inFrag] at hf
@@ -783,27 +1023,90 @@ theorem round_trip_zip (O : Oracles) (opts : DeserOpts) : ∀ (fs : List FieldDe
     · simp [deserZip, h4, g3]
     · simp [validateZip, h5, g4]
 
+/-- an ImmutableSet / StructureReference attribute round-trips THROUGH the constructor -/
+theorem attr_special_rt2 (O : Oracles) (opts : DeserOpts) : ∀ (f : FieldDecl) (v : PyVal),
+    attrSpecial O f v = true → RT2 O opts f v
+  | .setOf imm f sz, v, h => by
+    simp only [attrSpecial, and_true_iff] at h
+    obtain ⟨himm, hv⟩ := h
+    subst himm
+    cases v with
+    | set fr xs =>
+      simp only [and_true_iff] at hv
+      obtain ⟨⟨⟨⟨hfr, hsz⟩, hnd⟩, hh⟩, hall⟩ := hv
+      subst hfr
+      have hh' : xs.any unhashable = false := by simpa using hh
+      have hpt : ∀ x ∈ xs, RT O opts f x := fun x hx => by
+        have := (List.all_eq_true.mp hall) x hx
+        simp only [and_true_iff] at this
+        exact round_trip O opts f x this.1 this.2
+      rcases RT_list O opts f xs hpt with ⟨js, g1, g2, g3, g4⟩
+      have hdd := rt_dedup_of_nodup xs hnd
+      refine ⟨.list js, .set false xs, ?_, by simp [isJson, g2], rfl, ?_, rfl, ?_⟩
+      · simp [ser, sSeq, seqLike, g1]
+      · simp [deser, PyVal.isNone, dSeq, docSeq, g3, toValueErr, mkSet, hh', hdd]
+      · simp [validate, vSet, hsz, g4, hdd]
+    | _ => simp at hv
+  | .struct c fields defaults, v, h => by
+    simp only [attrSpecial, and_true_iff] at h
+    obtain ⟨⟨hinl, hnd⟩, hv⟩ := h
+    cases v with
+    | inst n attrs =>
+      simp only [and_true_iff] at hv
+      obtain ⟨⟨hn, hreq⟩, hcan⟩ := hv
+      have hn' : n = c.name := by simpa using hn
+      subst hn'
+      have hnd' : (fields.map (·.1)).Nodup := by simpa using hnd
+      rcases rt_fields O opts c defaults fields attrs hnd' hcan with ⟨kw, args, g1, g2, g3, ga, g4, g5⟩
+      exact rt2_inline O opts c fields defaults attrs kw args hinl hreq
+        (canonAttrs_names O c defaults fields attrs hcan)
+        (canonAttrs_nonNone O c defaults fields attrs hcan) g1 g2 g3 ga g4 g5
+    | _ => simp at hv
+  | .number _, _, h => by simp [attrSpecial] at h
+  | .integer _, _, h => by simp [attrSpecial] at h
+  | .float _, _, h => by simp [attrSpecial] at h
+  | .string _ _ _, _, h => by simp [attrSpecial] at h
+  | .boolean, _, h => by simp [attrSpecial] at h
+  | .enumLit _, _, h => by simp [attrSpecial] at h
+  | .enumCls _ _, _, h => by simp [attrSpecial] at h
+  | .seqAny _ _, _, h => by simp [attrSpecial] at h
+  | .seqOf _ _ _, _, h => by simp [attrSpecial] at h
+  | .seqPos _ _ _ _, _, h => by simp [attrSpecial] at h
+  | .setAny _ _, _, h => by simp [attrSpecial] at h
+  | .tupleOf _ _, _, h => by simp [attrSpecial] at h
+  | .tuplePos _ _, _, h => by simp [attrSpecial] at h
+  | .mapAny _, _, h => by simp [attrSpecial] at h
+  | .mapOf _ _ _, _, h => by simp [attrSpecial] at h
+  | .anyOf _, _, h => by simp [attrSpecial] at h
+  | .oneOf _, _, h => by simp [attrSpecial] at h
+  | .allOf _, _, h => by simp [attrSpecial] at h
+  | .notF _, _, h => by simp [attrSpecial] at h
+  | .noneF, _, h => by simp [attrSpecial] at h
+  | .anything, _, h => by simp [attrSpecial] at h
+
 theorem rt_fields (O : Oracles) (opts : DeserOpts) (c : ClassOpts) (defaults : List (String × PyVal)) :
     ∀ (fs : List (String × FieldDecl)) (attrs : List (String × PyVal)),
     (fs.map (·.1)).Nodup → canonAttrs O c defaults fs attrs = true →
-    ∃ kw : List (String × PyVal),
+    ∃ kw args : List (String × PyVal),
       mapE (fun (a : String × PyVal) =>
           bindE (serField O fs a.1 a.2) fun j => .ok (PyVal.str a.1, j)) attrs = .ok (kw.map rt_toPair)
       ∧ isJsonPairs (kw.map rt_toPair) = true
       ∧ kw.map (·.1) = attrs.map (·.1)
-      ∧ deserFields O opts c kw fs false = .ok attrs
-      ∧ validateFields O c defaults attrs fs = .ok attrs
+      ∧ args.map (·.1) = attrs.map (·.1)
+      ∧ deserFields O opts c kw fs false = .ok args
+      ∧ validateFields O c defaults args fs = .ok attrs
   | [], attrs, _, hc => by
     simp only [canonAttrs, List.isEmpty_iff] at hc
     subst hc
-    exact ⟨[], rfl, rfl, rfl, by simp [deserFields], by simp [validateFields]⟩
+    exact ⟨[], [], rfl, rfl, rfl, rfl, by simp [deserFields], by simp [validateFields]⟩
   | (n, f) :: rest, [], hnd, hc => by
     simp only [canonAttrs, and_true_iff] at hc
     have hnd' : (rest.map (·.1)).Nodup := (List.nodup_cons.mp (by simpa using hnd)).2
-    rcases rt_fields O opts c defaults rest [] hnd' hc.2 with ⟨kw, _, _, g3, g4, g5⟩
+    rcases rt_fields O opts c defaults rest [] hnd' hc.2 with ⟨kw, args, _, _, g3, ga, g4, g5⟩
     have hkw : kw = [] := by simpa using g3
-    subst hkw
-    refine ⟨[], rfl, rfl, rfl, ?_, ?_⟩
+    have harg : args = [] := by simpa using ga
+    subst hkw; subst harg
+    refine ⟨[], [], rfl, rfl, rfl, rfl, ?_, ?_⟩
     · simp only [deserFields, lookup]; exact g4
     · have := absent_argFor c defaults [] n hc.1 rfl
       simp only [validateFields, this]; exact g5
@@ -814,15 +1117,21 @@ theorem rt_fields (O : Oracles) (opts : DeserOpts) (c : ClassOpts) (defaults : L
     · have hmn : m = n := by simpa using hm
       subst hmn
       simp only [hm, if_true, and_true_iff] at hc
-      obtain ⟨⟨⟨hvn, hcf⟩, hff⟩, hrest⟩ := hc
+      obtain ⟨⟨hvn, hfa⟩, hrest⟩ := hc
       have hvn' : v.isNone = false := by simpa using hvn
-      rcases round_trip O opts f v hcf hff with ⟨j, h1, h2, h3, h4, h5⟩
-      rcases rt_fields O opts c defaults rest as hnd0.2 hrest with ⟨kw, g1, g2, g3, g4, g5⟩
+      have hrt2 : RT2 O opts f v := by
+        rcases (Bool.or_eq_true _ _).mp hfa with h1 | h2
+        · simp only [and_true_iff] at h1
+          exact rt2_of_rt O opts f v (round_trip O opts f v h1.1 h1.2)
+        · exact attr_special_rt2 O opts f v h2
+      rcases hrt2 with ⟨j, w, h1, h2, h3, h4, hw, h5⟩
+      rcases rt_fields O opts c defaults rest as hnd0.2 hrest with ⟨kw, args, g1, g2, g3, ga, g4, g5⟩
       have hjn : j.isNone = false := by rw [h3]; exact hvn'
+      have hwn : w.isNone = false := by rw [hw]; exact hvn'
       have hasn : ∀ a ∈ as, a.1 ≠ m := fun a ha hEq =>
         hnd0.1 (hEq ▸ canonAttrs_names O c defaults rest as hrest a ha)
       have hrn : ∀ k ∈ rest.map (·.1), k ≠ m := fun k hk hEq => hnd0.1 (hEq ▸ hk)
-      refine ⟨(m, j) :: kw, ?_, ?_, ?_, ?_, ?_⟩
+      refine ⟨(m, j) :: kw, (m, w) :: args, ?_, ?_, ?_, ?_, ?_, ?_⟩
       · have htail : mapE (fun (a : String × PyVal) =>
             bindE (serField O ((m, f) :: rest) a.1 a.2) fun j => .ok (PyVal.str a.1, j)) as
             = mapE (fun (a : String × PyVal) =>
@@ -835,14 +1144,15 @@ theorem rt_fields (O : Oracles) (opts : DeserOpts) (c : ClassOpts) (defaults : L
         simp [serField, h1, rt_toPair]
       · simp [isJsonPairs, isJsonKey, rt_toPair, h2]; simpa [rt_toPair] using g2
       · simp [g3]
+      · simp [ga]
       · have hcong := deserFields_congr O opts c ((m, j) :: kw) kw rest false
           (fun k hk => rt_lookup_cons_ne k m j kw (hrn k hk))
         simp [deserFields, lookup, hjn, deser_nonNone O opts c.ignoreNone f j hjn, h4, hcong, g4]
-      · have hcong := validateFields_congr O c defaults ((m, v) :: as) as rest
-          (fun k hk => rt_lookup_cons_ne k m v as (hrn k hk))
-        simp [validateFields, argFor, lookup, hvn', h5, hcong, g5]
+      · have hcong := validateFields_congr O c defaults ((m, w) :: args) args rest
+          (fun k hk => rt_lookup_cons_ne k m w args (hrn k hk))
+        simp [validateFields, argFor, lookup, hwn, h5, hcong, g5]
     · simp only [hm, Bool.false_eq_true, if_false, and_true_iff] at hc
-      rcases rt_fields O opts c defaults rest ((m, v) :: as) hnd0.2 hc.2 with ⟨kw, g1, g2, g3, g4, g5⟩
+      rcases rt_fields O opts c defaults rest ((m, v) :: as) hnd0.2 hc.2 with ⟨kw, args, g1, g2, g3, ga, g4, g5⟩
       have hnames := canonAttrs_names O c defaults rest ((m, v) :: as) hc.2
       have hattn : ∀ a ∈ ((m, v) :: as), a.1 ≠ n := fun a ha hEq => hnd0.1 (hEq ▸ hnames a ha)
       have hn_attrs : n ∉ ((m, v) :: as).map (·.1) := by
@@ -850,13 +1160,14 @@ theorem rt_fields (O : Oracles) (opts : DeserOpts) (c : ClassOpts) (defaults : L
         rcases List.mem_map.mp hmem with ⟨a, ha, hEq⟩
         exact hattn a ha hEq
       have hn_kw : n ∉ kw.map (·.1) := by rw [g3]; exact hn_attrs
-      refine ⟨kw, ?_, g2, g3, ?_, ?_⟩
+      have hn_args : n ∉ args.map (·.1) := by rw [ga]; exact hn_attrs
+      refine ⟨kw, args, ?_, g2, g3, ga, ?_, ?_⟩
       · rw [← g1]
         exact rt_mapE_congr _ _ _ (fun a ha => by
           have : (a.1 == n) = false := by simpa using hattn a ha
           simp only [serField, this, Bool.false_eq_true, if_false])
       · simp only [deserFields, rt_lookup_none_of_not_mem n kw hn_kw]; exact g4
-      · have := absent_argFor c defaults ((m, v) :: as) n hc.1 (rt_lookup_none_of_not_mem n _ hn_attrs)
+      · have := absent_argFor c defaults args n hc.1 (rt_lookup_none_of_not_mem n _ hn_args)
         simp only [validateFields, this]; exact g5
 end
 
